@@ -102,10 +102,12 @@ async def _run(n0, cycles):
             reader.feed_eof()
         elif f == "oserror":
             reader.set_exception(OSError("scripted read failure"))
+            writer.lost_with = ConnectionResetError("scripted read failure")    # (as a real transport: wait_closed() re-raises it)
         elif f == "write":
             from pyplumio.frames.requests import UIDRequest
             from pyplumio.const import DeviceType
             writer.fail_on = writer.writes + 1
+            writer.lost_with = BrokenPipeError("write failed")
             proto._queues.write.put_nowait(UIDRequest(recipient=DeviceType.ECOMAX))
             reader.feed_data(G.enc(0x31, 0x45, 0x56, 0, 5, b""))
         elif f in ("stall", "eof-mid"):
